@@ -190,9 +190,13 @@ def job_metrics(ctx, k):
             for t in (1e-6, 1e-5, 1e-4, 2e-4, 1e-3, 5e-3, 1e-2, 0.1, 1.0, 2.0, 3.0, math.pi - 1e-3, math.pi - 1e-6, math.pi):
                 pairs.append((f'p{ip}~p{ip}*d(axis{4*ia},t={t:.10g})', p, rq.qmul(p, rq.axang2q(ax, t))))
                 pairs.append((f'p{ip}~-p{ip}*d(axis{4*ia},t={t:.10g})', p, -rq.qmul(p, rq.axang2q(ax, t))))
+    # the metrics normalise their arguments: non-unit copies of a slice of the rows (first, second, both arguments scaled)
+    for n_, (lab, p1, p2) in enumerate(list(pairs[::7])):
+        s1, s2 = [(3.0, 1.0), (1.0, 0.5), (0.25, 7.0)][n_ % 3]
+        pairs.append((f'{lab} scaled=({s1:g},{s2:g})', p1 * s1, p2 * s2))
     labels = [x[0] for x in pairs]
     Q1 = np.array([x[1] for x in pairs]); Q2 = np.array([x[2] for x in pairs])
-    R1 = np.array([rq.R(q) for q in Q1]); R2 = np.array([rq.R(q) for q in Q2])
+    R1 = np.array([rq.R(rq.qunit(q)) for q in Q1]); R2 = np.array([rq.R(rq.qunit(q)) for q in Q2])
     for name in ('qdist', 'qeip', 'qcip', 'qad'):
         fn = getattr(M, name)
         _cmp_batch(ctx, f'metrics.{name} batch row = single', labels, lambda idx: np.asarray(fn(Q1[idx].copy(), Q2[idx].copy())),
